@@ -67,9 +67,9 @@ static void report (OrcProgram * p, const char *kind, const VRunCfg * c, const c
   snprintf (key, sizeof (key), "%s|%s|%s|%s|%s", prop, mode, opsig (p), kinds_sig (p), kind);
   st_viol++;
   if (key_seen (key)) return;
-  v_out ("{\"t\":\"viol\",\"key\":\"%s\",\"what\":\"generated C (%s) vs emulation: %s; n=%d m=%d stride_extra=%d pchoice=%d vbase=%llu; program: %s\","
+  v_out ("{\"t\":\"viol\",\"key\":\"%s\",\"what\":\"generated C (%s) vs emulation: %s; n=%d m=%d stride_extra=%d flip=0x%x pchoice=%d vbase=%llu; program: %s\","
       "\"replay\":{\"function\":\"%s\",\"mode\":\"%s\",\"program\":\"%s\",\"n\":%d,\"m\":%d,\"stride_extra\":%d,\"pchoice\":%d,\"vbase\":%llu}}",
-      v_esc (key), mode, v_esc (msg), c->n, c->m, c->stride_extra, c->pchoice, (unsigned long long) c->vbase, v_esc (oprog_oneline (p)),
+      v_esc (key), mode, v_esc (msg), c->n, c->m, c->stride_extra, c->flip, c->pchoice, (unsigned long long) c->vbase, v_esc (oprog_oneline (p)),
       p->name, mode, v_esc (oprog_oneline (p)), c->n, c->m, c->stride_extra, c->pchoice, (unsigned long long) c->vbase);
 }
 
@@ -191,6 +191,18 @@ static void explore (OrcProgram * p, const VCallEntry * e, long caseidx)
       c.n = p->constant_n > 0 ? p->constant_n : 5;
       c.pchoice = a + b;
       c.vbase = 11 * a + b;
+      if (one (p, e, &c, 1)) bad = 1;
+    }
+    /* bottom-up arrays (negative strides) */
+    for (a = 0; a < 3 && !bad; a++) {
+      static const unsigned flips[] = { 0xfffu, 0x00fu, 0xff0u };
+      memset (&c, 0, sizeof (c));
+      c.m = 3;
+      c.stride_extra = a == 1 ? 40 : 0;
+      c.n = p->constant_n > 0 ? p->constant_n : 5;
+      c.pchoice = a;
+      c.vbase = 7 + a;
+      c.flip = flips[a];
       if (one (p, e, &c, 1)) bad = 1;
     }
   }
